@@ -488,6 +488,7 @@ def run(ctx):
     ctx.rule("R-6.2", "restore provenance of the scheduler stream (cross-reference to C07)", floor=1)
     ctx.rule("R-6.3", "no nondeterministic source reaches restart.toml or the data file (taint analysis)", floor=10)
     ctx.rule("R-6.4", "per-run state is per instance", floor=3)
+    ctx.rule("R-6.11", "the in-flight record that is persisted and re-issued uses one representation of path numbers at all its filling sites and consumers (shared with C03 R-3.8)", floor=3)
     ctx.rule("R-6.10", "what load_path reads back has the roles it was written with (columns of order/energy/traj files, shared with C14 R-14.2)", floor=3)
     ctx.rule("R-6.9", "a restart does not rewrite persisted settings: stores outside [current] on the restart path of setup_config only fill in missing defaults", floor=4)
     ctx.rule("R-6.8", "the weight function is called with the same configuration keys when a path is accepted (run_md) and when it is loaded at a (re)start (load_paths)", floor=4)
@@ -502,6 +503,10 @@ def run(ctx):
     ctx.attempt(commit_is_final, ctx, "R-6.5")
     from . import c14
     from .shared import RuleProxy
+    from . import c03 as _c03
+    _cls = ctx.tree.cls(REPEX, "REPEX_state")
+    _methods = {s.name: s for s in _cls.body if isinstance(s, FUNC)}
+    ctx.attempt(_c03.r38, RuleProxy(ctx, "R-6.11", " (jobs re-issued after a restart are never cleared from current.locked, so the next restart re-issues stale jobs)"), _methods)
     ctx.attempt(c14.r142, RuleProxy(ctx, "R-6.10", " (a path read back at a restart differs from the path the interrupted run held in memory)"))
     from .shared import config_section_agreement, callsite_config_agreement, restart_preserves_settings
     ctx.attempt(restart_preserves_settings, ctx, "R-6.9", " (restart equivalence)")
@@ -510,6 +515,7 @@ def run(ctx):
 
 
 VARIANTS = [
+    B("c06-reissue-recorded-as-int", REPEX, "        self.locked.append((enss, trajs0))\n", "        self.locked.append((enss, [i.path_number for i in trajs]))\n", "R-6.11", why="seeded C06_e (= C17_a)"),
     B("c06-load-energies-swapped", PATH, '                energy["data"]["ekin"], energy["data"]["vpot"]', '                energy["data"]["vpot"], energy["data"]["ekin"]', "R-6.10", control=True, why="seeded C06_d"),
     B("c06-restart-resets-data-file", SETUP, '        curr["restarted_from"] = config["current"]["cstep"]\n', '        curr["restarted_from"] = config["current"]["cstep"]\n        config["output"]["data_file"] = os.path.join(config["output"]["data_dir"], "infretis_data.txt")\n', "R-6.9", control=True, why="seeded C04_d"),
     B("c06-restart-reseeds", SETUP, '    if "seed" not in config["simulation"].keys():\n        config["simulation"]["seed"] = 0', '    config["simulation"]["seed"] = 0', "R-6.9"),
